@@ -7,6 +7,7 @@
                                                   | err SymlinkTooLarge
      iterids <filter> <limit|-> <order id|rev> <tree> -> the same, through the literal stack/queue model from_disk_iter
                                                   (err MODEL <KeyError|Assert|OutOfFuel> cannot happen: C06_iter_total)
+     rootid <filter> <limit|-> <order id|rev> <tree> -> ok <root id>   (linear in the tree: for deep chains, where `ids` is quadratic)
      spec <tree>                                   -> ok <node_id> <git_node_id> <wf 0|1>
      pruned <filter> <tree>                        -> ok <node_id of the physically pruned tree>
      export <filter> <limit|-> <tree>              -> ok D:<id>:<target,target..>;C:<id>:<sha1 of data>:<len>;S:<id>:<len>;...
@@ -66,6 +67,11 @@ let () = serve (function
       let ord = if o = "rev" then (fun _ l -> List.rev l) else (fun _ l -> l) in
       (match read_tree ord (parse_flt f) (parse_limit lim) (tree_of t) with
        | FdOk m -> show_ids m
+       | FdSymlinkTooLarge -> "err SymlinkTooLarge")
+  | ["rootid"; f; lim; o; t] ->
+      let ord = if o = "rev" then (fun _ l -> List.rev l) else (fun _ l -> l) in
+      (match read_tree ord (parse_flt f) (parse_limit lim) (tree_of t) with
+       | FdOk m -> "ok " ^ hex_of_bytes (mt_id sha1 m)
        | FdSymlinkTooLarge -> "err SymlinkTooLarge")
   | ["oldpass2"; k; f; t] ->
       (match parse_flt f with
